@@ -1,18 +1,18 @@
 #!/bin/sh
-# tools/confirm_seed.sh <ID> [--no-baseline]
+# tools/confirm_seed.sh <ID> [--no-baseline]   (worktree: $SEED_WT or /tmp/seed_<ID>)
 # Confirms a seeded change prepared in the scratch worktree /tmp/seed_<ID>:
 #   1. its demonstration fails with the change (worktree) and passes without it (/repo),
 #   2. the existing test-suite result does not get worse with the change,
 # then copies patch.diff + demo.py (+ notes.md) to /verif/seeded/<ID>/ .
 set -u
-id="$1"; wt=/tmp/seed_$id; s=$wt/_seed
+id="$1"; wt=${SEED_WT:-/tmp/seed_$id}; s=$wt/_seed
 cd "$(dirname "$0")/.."
 [ -f "$s/patch.diff" ] || { echo "no patch for $id"; exit 2; }
 # the patch must be exactly what is applied in the worktree
 git -C "$wt" diff > /tmp/confirm_$id.diff
 if ! diff -q /tmp/confirm_$id.diff "$s/patch.diff" >/dev/null; then echo "NOTE: _seed/patch.diff differs from the worktree's git diff; using the worktree's"; cp /tmp/confirm_$id.diff "$s/patch.diff"; fi
 OMP_NUM_THREADS=1 MKL_NUM_THREADS=1 /venv/bin/python "$s/demo.py" >/tmp/confirm_$id.with.log 2>&1; with=$?
-sed "s#/tmp/seed_$id#/repo#g" "$s/demo.py" > /tmp/confirm_${id}_demo_orig.py
+sed "s#$wt#/repo#g" "$s/demo.py" > /tmp/confirm_${id}_demo_orig.py
 OMP_NUM_THREADS=1 MKL_NUM_THREADS=1 /venv/bin/python /tmp/confirm_${id}_demo_orig.py >/tmp/confirm_$id.without.log 2>&1; without=$?
 echo "$id demo: with change rc=$with ; without change rc=$without"
 base="skipped"
